@@ -7,6 +7,10 @@ TECH_A = "bounded symbolic execution of the real Python code (CrossHair 0.0.110 
 TECH_B = "; plus direct z3 obligations generated from the live source/AST (unbounded in the stated dimension)"
 
 CLAIMED = {
+    "C12": dict(
+        text="Bounded symbolic model checking of compile -> str -> compile -> str on prefix + k symbolic characters + suffix, on every path where the RFC reference finds the query valid: str(compiled) must be derivable and valid for the reference recogniser, its RFC reading and its recompiled normal form must equal the original's (same names, integers, literal values, selectors and the same grouping of !, &&, ||, comparisons - hence the same nodes on every value), and serialising again must give the identical text. Holes cover every position of a corpus containing every nesting of !, &&, ||, comparisons, parentheses, calls and embedded filters, the terminal classes of names and string literals over all characters, and numeric spellings.",
+        note="Trusted: CrossHair/z3, the reference model, M5 json.dumps(str, ensure_ascii=False) as per-character escaping (validated for all scalar values each run), f-string formatting of objects routed through the symbolic-aware str(); float(<numeral>) is concrete per path in this check (digits fork-enumerated) because double rounding is the subject. 'Same node selection' is derived from normal-form equality (evaluation reads only those fields; omitted slice step = 1 is C07's obligation, numeric kind-insensitivity C06's). Outside: literals beyond the exactly representable range.",
+        tech=TECH_A, design="§4 C12"),
     "C05": dict(
         text="Bounded symbolic model checking of the validity rules. Typing: compile() on an environment with user-registered functions is compared with the RFC 9535 section 2.4.3 judgement of the reference model for all 39 signatures over {Value,Logical,Nodes}^n -> type (n<=2), 10 syntactic positions, 10 argument-expression kinds per parameter and arity off by one; these finite dimensions are symbolic choice variables the executor forks on (fork-enumerated, exhaustively), while function names in call position are symbolic characters decided by the solver against the registry. Integer range: environment bounds lo<=hi and every index/slice component are unbounded solver variables for the constructors (also proved for all integers by z3 from the source), and index/slice literal spellings around +/-(2^53-1) have symbolic trailing digits end-to-end through compile().",
         note="Trusted: CrossHair/z3, the reference typing rules in vtools/ref/grammar.py (self-tested against tests/test_ietf_well_typedness.py with its mock signatures), stubs of C04. Outside: functions with more than 2 parameters; for n=2 the quick tier varies one argument at a time (thorough: all pairs).",
